@@ -1,30 +1,88 @@
 """Texts of the claims per property (what MANIFEST.json says)."""
-PBT = "property-based testing (pgregory.net/rapid) against an explicit independent oracle"
 ENGINES = [
-    {"name": "E1-package-pbt", "path": "/verif/props", "serves_properties": [],
+    {"name": "E1-package-pbt", "path": "/verif/props",
+     "serves_properties": ["C04", "C05", "C06", "C07", "C08", "C09", "C10", "C14", "C18", "C20"],
      "kind_free_text": "in-package rapid properties compiled into /repo's packages through -overlay/-modfile (no file of /repo is changed)"},
+    {"name": "E2-cmdwire", "path": "/verif/props/command/zz_verif_cmdwire_test.go",
+     "serves_properties": ["C01", "C02", "C03", "C11", "C12", "C13", "C15", "C16", "C19"],
+     "kind_free_text": "full cobra commands (newRootCmd().Execute()) run in-process on a virtual wire that replaces only pkg/packet/afpacket/readwriter.go and runs the exact BPF text sx installs in the x/net/bpf VM"},
+    {"name": "E3-netns", "path": "/verif/kit/cmd/nsrun",
+     "serves_properties": ["C17"],
+     "kind_free_text": "the real sx binary on real AF_PACKET sockets inside generated network namespaces (veth pairs, tun devices, routes)"},
 ]
-NOTES = ("All checks are generated-input searches (rapid / native fuzzing) with explicit oracles from /verif/kit, which imports "
-         "neither sx nor gopacket. Build: ./check regenerates modfile+overlay from /repo's working tree on every run.")
+NOTES = ("All checks are generated-input searches (pgregory.net/rapid; native fuzzing in some thorough tiers) with explicit oracles from "
+         "/verif/kit, which imports neither sx nor gopacket. Build: ./check regenerates modfile+overlay from /repo's working tree on every run; "
+         "exit 2 = infrastructure problem (inconclusive), never a verdict.")
+
+
+def _c(engine, technique, text, note, ref):
+    return {"engine": engine, "technique": technique, "text": text, "note": note, "design_ref": "DESIGN.md §2 " + ref}
+
+
 CLAIMS = {
- "C05": {"engine": "E1-package-pbt", "technique": "property-based testing: generated requests/options, frames decoded by an independent decoder with recomputed checksums", "design_ref": "DESIGN.md §2 C05", "text": "x", "note": "y"},
- "C18": {"engine": "E1-package-pbt", "technique": "property-based testing: render->parse round trips of generated values and reference-grammar differential on mutated/arbitrary strings", "design_ref": "DESIGN.md §2 C18", "text": "x", "note": "y"},
- "C20": {"engine": "E1-package-pbt", "technique": "fault enumeration: bounded-exhaustive read-outcome scripts + random long scripts against a reference state machine", "design_ref": "DESIGN.md §2 C20", "text": "x", "note": "y"},
- "C14": {"engine": "E1-package-pbt", "technique": "property-based testing: generated result sequences with hostile strings through the real JSON logger, decode-back oracle and de-duplication model", "design_ref": "DESIGN.md §2 C14", "text": "x", "note": "y"},
- "C06": {"engine": "E1-package-pbt", "technique": "property-based testing: structured frame mutation sequences through one processor instance; native fuzzing in the thorough tier; oracle = independent decoder", "design_ref": "DESIGN.md §2 C06", "text": "x", "note": "y"},
- "C07": {"engine": "E1-package-pbt", "technique": "property-based testing under the race detector: generated request streams with injected failures through the real pipeline stages, multiset oracle", "design_ref": "DESIGN.md §2 C07", "text": "x", "note": "y"},
- "C08": {"engine": "E1-package-pbt", "technique": "property-based testing under the race detector: generated target files and per-target outcomes through the real application engine, exactly-once multiset oracle", "design_ref": "DESIGN.md §2 C08", "text": "x", "note": "y"},
- "C01": {"engine": "E2-cmdwire", "technique": "property-based testing: generated target specifications through full commands on a virtual wire, multiset equality with an independent denotation", "design_ref": "DESIGN.md §2 C01", "text": "x", "note": "y"},
- "C02": {"engine": "E2-cmdwire", "technique": "property-based testing: grammar-generated target strings against a reference IPv4 recogniser at parser and command level; exclusion lists against prefix-match membership", "design_ref": "DESIGN.md §2 C02", "text": "x", "note": "y"},
- "C03": {"engine": "E2-cmdwire", "technique": "property-based testing: generated traffic scripts against full commands on a virtual wire running the installed BPF text; independent reply-shape classifier as oracle", "design_ref": "DESIGN.md §2 C03", "text": "x", "note": "y"},
- "C04": {
-  "engine": "E1-package-pbt",
-  "technique": "property-based testing: bitmap permutation oracle on generated sizes/seeds + exhaustive number-theoretic check of the 32-row table with generated draws",
-  "design_ref": "DESIGN.md §2 C04",
-  "text": "Exploration: full walks of the iterator against a bitmap for generated n (quick n<=2^20, thorough n<=2^24 plus one full walk for n=2^17..2^32 and P-1 of the last rows), and for all 32 rows x generated 63-bit draws an independent math/big check that the derived generator has order P-1; rejection of sizes outside 1..2^32+60. Not a proof: draws are sampled.",
-  "note": "trusts math/big, trial division, the bitmap; rand.Seed-driven draws are a subset of the 2^126 draw pairs",
- },
+ "C01": _c("E2-cmdwire",
+   "property-based testing: generated target specifications through full commands on a virtual wire, multiset equality with an independent denotation",
+   "Exploration. Every packet-scan command is executed end to end (real flag parsing, generator choice, chunking) on a virtual wire with generated specifications "
+   "(CIDR any base /32../22 x port-range lists incl. >200 ranges, pair files, address files x ports from file or stdin, exclusions, both link modes, drawn rand seed); "
+   "the multiset of probes decoded from the written frames must equal an independently computed denotation. Application scans: the calls a recording Scanner receives "
+   "after real option parsing, and full socks runs against loopback listeners. Generator level up to 2^23 products (thorough: one /8 and one /5 pass by bitmap). "
+   "Sampling, not proof: wider subnets rest on C04 plus the index->address arithmetic.",
+   "trusts verifkit/gram (denotation), verifkit/wire (decoder), the virtual wire as a model of the AF_PACKET adapter; interface pinned to lo", "C01"),
+ "C02": _c("E2-cmdwire",
+   "property-based testing: grammar-generated target strings against a reference IPv4 recogniser at parser and command level; exclusion lists against prefix-match membership",
+   "Exploration. Target strings drawn from a grammar (IPv4, CIDR, every IPv6 form incl. mapped and CIDR with all host widths, garbage) are given to ip.ParseIPNet and as the "
+   "positional argument of every command: not-IPv4 => error, no socket, no frame, no crash; IPv4 => probes are exactly the denotation. Exclusion: generated (target, exclusion file) "
+   "pairs, oracle = prefix membership, both directions (no probe inside, nothing else removed), boundary addresses forced into the target.",
+   "trusts gram.RefIPv4Target as the definition of 'IPv4 target'; application scans are judged at option-parsing level", "C02"),
+ "C03": _c("E2-cmdwire",
+   "property-based testing: generated traffic scripts against full commands on a virtual wire running the installed BPF text; independent reply-shape classifier as oracle",
+   "Exploration. For each packet-scan command and CLI mode a generated traffic script (reply-shaped frames and every near miss: subnet edges, port-range edges, all flag sets, "
+   "options, ICMP types, foreign protocols, IPv6, IP-in-IP, VLAN) is injected while the scan runs; the JSON records on stdout must equal, as a multiset, one record per frame "
+   "that an independent classifier calls reply-shaped. Because the virtual wire executes the very filter text sx installs, filter o processor o per-chunk wiring is what is tested.",
+   "trusts verifkit/shape + wire; x/net/bpf VM + libpcap compile as the kernel's filter semantics; fragments are out of scope of the statement", "C03"),
+ "C04": _c("E1-package-pbt",
+   "property-based testing: bitmap permutation oracle on generated sizes/seeds + exhaustive number-theoretic check of the 32-row table with generated draws",
+   "Exploration: full walks of the iterator against a bitmap for generated n (quick n<=2^20, thorough n<=2^24 plus one full walk for n=2^17..2^32 and P-1 of the last rows), "
+   "and for all 32 rows x generated 63-bit draws an independent math/big check that the derived generator has order P-1; rejection of sizes outside 1..2^32+60. Not a proof: draws are sampled.",
+   "trusts math/big, trial division, the bitmap; rand.Seed-driven draws are a subset of the 2^126 draw pairs", "C04"),
+ "C05": _c("E1-package-pbt",
+   "property-based testing: generated requests/options through the four real fillers, frames decoded by an independent decoder with recomputed checksums",
+   "Exploration. Generated requests and filler options (all 512 TCP flag sets every run, TTL, IP flags, type/code, overrides, payload lengths incl. odd/empty, both link modes) "
+   "through the real arp/icmp/tcp/udp fillers; every field must decode back with an independent decoder, checksums are recomputed, VPN frame = Ethernet frame minus 14 bytes, "
+   "spoofed fields stay in range over 10^5 fills per case.",
+   "trusts verifkit/wire (hand-written decoder, RFC 1071)", "C05"),
+ "C06": _c("E1-package-pbt",
+   "property-based testing: structured frame-mutation sequences through one processor instance; oracle = independent strict decoder (necessary conditions for a record)",
+   "Exploration. Sequences of 1..12 generated frames (valid frames, then truncation at every offset, length/IHL/offset/address-size overrides, nested IPv4, fragments, exact-capacity slices) "
+   "through one tcp/icmp/udp/arp processor instance in both link modes: no panic, at most one record per frame, a record only if this frame itself carries the header chain, every field equal to this frame's bytes.",
+   "necessary conditions only (a record is never demanded); IPv4 version nibble other than 4 is not judged", "C06"),
+ "C07": _c("E1-package-pbt",
+   "property-based testing under the race detector: generated request streams with injected failures through the real pipeline stages, multiset oracle",
+   "Exploration. Request streams (0..3000, errors at drawn positions) through the real generator/multigenerator/merger/sender assembled as SetupPacketEngine does, with recording filler and writer "
+   "(fail, delay, snapshot at entry and exit); written multiset = built multiset byte for byte, error multiset exact, done only after the last write; -race, GOMAXPROCS 1/2/4/16.",
+   "schedules are sampled, not enumerated; a failure that needs one specific interleaving can be missed", "C07"),
+ "C08": _c("E1-package-pbt",
+   "property-based testing under the race detector: generated target files and per-target outcomes through the real application engine, exactly-once multiset oracle",
+   "Exploration. Generated targets with drawn outcome/latency per target through scan.NewScanEngine + ResultChan + real JSON logger via startScanEngine, workers 1..1000, limiter on/off: "
+   "Scan calls = error-free requests exactly once, stdout lines = positives, error records = failures, nothing in flight when done closes, all printed before return; -race.",
+   "schedules sampled; error records observed at Logger.Error", "C08"),
+ "C14": _c("E1-package-pbt",
+   "property-based testing: generated result sequences with hostile strings through the real JSON logger, decode-back oracle and de-duplication model",
+   "Exploration. Sequences of results of every type with hostile strings (quotes, control characters, U+2028, invalid UTF-8, long values, nested maps) through log.NewLogger(JSON) and NewUniqueLogger: "
+   "one line per result in order, each decodes with encoding/json to the result's fields; unique logger = first occurrences by ID.",
+   "trusts encoding/json's decoder as the inverse; invalid UTF-8 compares as U+FFFD", "C14"),
+ "C18": _c("E1-package-pbt",
+   "property-based testing: render->parse round trips of generated values and reference-grammar differential on mutated/arbitrary strings",
+   "Exploration. For every option parser: canonical renderings of generated values parse back to the value (flag subsets exhaustive), and near-grammar/arbitrary strings are either refused or "
+   "accepted with exactly the reference grammar's value; no panic; over-long lines in files are errors.",
+   "trusts verifkit/gram reference grammars and time.ParseDuration", "C18"),
+ "C20": _c("E1-package-pbt",
+   "fault enumeration: bounded-exhaustive read-outcome scripts + random long scripts against a reference state machine",
+   "Fault enumeration. All read-outcome sequences over {frame, failing frame, EAGAIN, timeout, ECONNRESET, unknown} up to a bound followed by each terminal, each with cancellation at every position "
+   "(exhaustive within the bound), then random scripts to length 300 with bursts; processed frames and error stream must equal the reference machine's.",
+   "read outcomes are the bare values gopacket returns; io.ErrNoProgress/ErrShortBuffer not generated", "C20"),
 }
+
 # properties not (yet) claimed
 NOT_APPLICABLE = {}
 for _p in ["C%02d" % i for i in range(1, 21)]:
